@@ -209,11 +209,8 @@ impl fmt::Display for CssString {
 
 impl PartialEq for CssString {
     fn eq(&self, other: &Self) -> bool {
-        if self.quotes == other.quotes {
-            self.value == other.value
-        } else {
-            self.clone().unquote() == other.clone().unquote()
-        }
+        (self.quotes == other.quotes && self.value == other.value)
+            || self.clone().unquote() == other.clone().unquote()
     }
 }
 
